@@ -508,8 +508,12 @@ pub fn run_jitter_history(spec: &Spec, st: &mut Stats, cfg: &JitterRunCfg) -> Ru
     if spec.pre_new {
         #[cfg(feature = "jstd")]
         {
-            let ok = matches!(crate::gens::guard(|| rand_jitter::JitterRng::new().is_ok()), Ok(true));
-            st.count(if ok { "probe:real_clock_new_before_run" } else { "probe:real_clock_new_failed" });
+            // (it may return Err - the machine's clock is what it is - but it may not panic)
+            let r = crate::gens::guard(|| rand_jitter::JitterRng::new().is_ok());
+            if let Err(SutFail::Panic(m)) = &r {
+                return sut_panic("JitterRng::new", m);
+            }
+            st.count(if matches!(r, Ok(true)) { "probe:real_clock_new_before_run" } else { "probe:real_clock_new_failed" });
         }
     }
     let g = build_jitter(clock.clone());
@@ -711,7 +715,7 @@ impl Scenario for C12 {
         run_jitter_history(spec, st, &JitterRunCfg { prop: "C12", c16: false })
     }
     fn rule(&self) -> String {
-        "Each run: a JitterRng over a scripted clock (SimClock). The script is drawn from a per-run profile (start value, base delta, jitter amplitude) with a per-run random subset of the clock-fault catalogue (stall, const_delta, ramp, backward, jump_pos31, jump_neg31, jump_2p32, zero_reading, coarse100, tiny_var, wrap_u64, big_pause; in one run out of 60 also long_stuck: 3100..9000 consecutive readings at a perfectly constant rate) placed inside collections at a per-run rate, optional skew between clones; in one run out of 25 the first deltas are SOLVED (GF(2) elimination over the model) so that the first collected value has a zero upper half, a zero lower half or is zero; rounds in 1..=255 (default 64 when unset); 1..24 operations from next_u32 / next_u64 / fill_bytes(0..40) / timer_stats(bool) / set_rounds / clone / clone_from into a used generator. After EVERY operation the returned value/bytes and the cumulative number of timer readings are compared with an independent executable model of the documented Jitterentropy 2.1.0 procedure run on the same readings. distinct_nontrivial = distinct (set of fault kinds whose marked reading was consumed inside the operation, rounds bucket, op kind, half flag) signatures. Further variants: (long haul) fill_bytes(8N+t) with N around 2^8 and 2^16 at rounds 1 after a prefix that leaves or clears a half, then the calls that depend on the half flag; set_rounds(0) as an operation: the documented panic is expected and contained, afterwards the model is unchanged; (pre_new) a real-clock JitterRng::new() is made and dropped first in one run out of 40; (nested_timer) the generator is advanced from INSIDE selected timer readings of another JitterRng's collection on the same thread and must still follow the model; in one run out of ten the real clock (std Instant/SystemTime) jumps by 1 ms .. 1 h per reading while the code under test runs.".into()
+        "Each run: a JitterRng over a scripted clock (SimClock). The script is drawn from a per-run profile (start value, base delta, jitter amplitude) with a per-run random subset of the clock-fault catalogue (stall, const_delta, ramp, backward, jump_pos31, jump_neg31, jump_2p32, zero_reading, coarse100, tiny_var, wrap_u64, big_pause; in one run out of 60 also long_stuck: 3100..9000 consecutive readings at a perfectly constant rate) placed inside collections at a per-run rate, optional skew between clones; in one run out of 25 the first deltas are SOLVED (GF(2) elimination over the model) so that the first collected value has a zero upper half, a zero lower half or is zero; rounds in 1..=255 (default 64 when unset); 1..24 operations from next_u32 / next_u64 / fill_bytes(0..40) / timer_stats(bool) / set_rounds / clone / clone_from into a used generator. After EVERY operation the returned value/bytes and the cumulative number of timer readings are compared with an independent executable model of the documented Jitterentropy 2.1.0 procedure run on the same readings. distinct_nontrivial = distinct (set of fault kinds whose marked reading was consumed inside the operation, rounds bucket, op kind, half flag) signatures. Further variants: (long haul) fill_bytes(8N+t) with N around 2^8 and 2^16 at rounds 1 after a prefix that leaves or clears a half, then the calls that depend on the half flag; set_rounds(0) as an operation: the documented panic is expected and contained, afterwards the model is unchanged; (pre_new) a real-clock JitterRng::new() is made and dropped first in one run out of 40, while the system's calendar date is today, 1970, 2038, 2106, 2262, 2514, 2554 or later (it may fail, it may not panic); (nested_timer) the generator is advanced from INSIDE selected timer readings of another JitterRng's collection on the same thread and must still follow the model; in one run out of ten the real clock (std Instant/SystemTime) jumps by 1 ms .. 1 h per reading while the code under test runs.".into()
     }
     fn assumptions(&self) -> Vec<String> {
         vec![
